@@ -24,11 +24,15 @@
 #  harmless rewrites tolerated (exit 0): H1 tmp.reserve(...) removed in compress(); H2 update() tests NaN by
 #   `value != value`, sets max_ before min_ and pushes last; H3 merge() clears the buffer before toggling reverse_merge_.
 #  The tdigest unit tests (tdigest_test, 9820 assertions) pass with the four patches applied.
+#  Seeded changes (lib/seedrun.py): C17-1, C17-2 caught; C17-3 (get_quantile's single-centroid shortcut hoisted above
+#  compress(): stale centroid list while values sit in the buffer) was MISSED by the random scripts and is caught since the
+#  deterministic state-class cases (state_cases) were added: replay `new(10); update(-7.5); serialize; update; get_quantile(1)`.
 import struct, math
 PROP = "C17"
 READY = True
 COQ_PROPS = ['Properties_C17']
-RULE = ('operation scripts over up to four tdigest<double> registers: k in {10,20,50,100,200} (plus 11,29,30,31 and refused k<10), '
+RULE = ('396 deterministic state-class cases (k in {10,30,100} x {0,1,2,several} centroids reached via update -> compress point [compress / get_quantile / serialize / deserialized image] x buffer of 1..3 values extending the range x each query kind issued FIRST after the buffered updates: get_quantile, get_rank, get_CDF, get_PMF, info, dump, serialize bytes/header/stream with and without buffer, merge as source and as target), then '
+        'operation scripts over up to four tdigest<double> registers: k in {10,20,50,100,200} (plus 11,29,30,31 and refused k<10), '
         'value streams sorted / reversed / uniform / gaussian / clustered / constant / few-distinct / integer / wide-magnitude / '
         'adjacent-doubles, NaN mixed in (ignored), at most one +inf and one -inf per case, update batches sized around the buffer '
         'capacity 4*(2k+fudge) so that automatic compressions happen at varying points, interleaved get_rank / get_quantile / '
@@ -143,7 +147,81 @@ def rank_grid(rng, m, n=0):
         g += [1.0 / n, (n - 1.0) / n, 0.5 / n, 1.5 / n, (n - 1.5) / n if n > 2 else 0.5]
     return sorted(set(x for x in g if 0.0 <= x <= 1.0))
 
+# ---------------------------------------------------------------------------------------------------------------------
+# Deterministic state-class cases: every query kind issued DIRECTLY after buffered updates (no other query, compress or
+# buffer overflow in between) on a digest that holds exactly 0, 1, 2 or several centroids plus a non-empty buffer of 1..3
+# values.  The centroids are produced by update -> compress point (compress(), get_quantile, serialize without buffer, or
+# continuing on the digest deserialized from that image), for several k.  The buffered values extend the range below
+# and/or above, so an answer computed from the stale centroid list (e.g. a shortcut taken before compress()) gives
+# quantile(0) != min, quantile(1) != max, wrong ranks / weights, and differs from the model.
+QUERY_KINDS = ['quantile', 'rank', 'cdf', 'pmf', 'info', 'ser0', 'ser1', 'ser_stream', 'merge_src', 'merge_dst', 'dump']
+
+def state_cases(rng):
+    cases = []
+    idx = 0
+    for k in (10, 30, 100):
+        for nc in (0, 1, 2, 'many'):
+            for nb in (1, 2, 3):
+                for kind in QUERY_KINDS:
+                    idx += 1
+                    ops = [[1, 0, k]]
+                    base = rng.choice([0.0, 10.0, -7.5, 1000.0])
+                    n0 = {0: 0, 1: 1, 2: 2, 'many': 40}[nc]
+                    first = [base + rng.choice([1.0, 0.25, 3.0]) * i for i in range(n0)]
+                    reg = 0
+                    if n0:
+                        ops.append([2, 0] + [d2b(v) for v in first])
+                        cp = idx % 5                                   # the compress point
+                        if cp == 0: ops.append([10, 0])
+                        elif cp == 1: ops.append([7, 0, d2b(0.5)])
+                        elif cp == 2: ops.append([12, 0, 1, 0, 0])      # serialize(with_buffer = false) compresses the source
+                        elif cp == 3: ops.append([12, 0, 1, 0, 1]); reg = 1   # continue on the deserialized digest (stream)
+                        else: ops.append([12, 0, 1, 1, 0]); ops.append([10, 1]); reg = 1   # image with buffer, then compress
+                    lo = (min(first) if first else base) - 5.0
+                    hi = (max(first) if first else base) + 5.0
+                    mid = (lo + hi) / 2
+                    buf = {1: [[lo], [hi], [mid]][idx % 3], 2: [[hi, lo], [lo, mid], [mid, hi]][idx % 3], 3: [hi, mid, lo]}[nb]
+                    ops.append([2, reg] + [d2b(v) for v in buf])
+                    allv = first + buf
+                    g = sorted(set([min(allv) - 1, min(allv), max(allv), max(allv) + 1, mid] + allv[:6]))
+                    qs = [0.0, 1.0, 0.5, 0.01, 0.99, 1.0 / len(allv), 1 - 1.0 / len(allv)]
+                    other = 2
+                    if kind == 'quantile':
+                        q = qs[idx % len(qs)]; ops.append([7, reg, d2b(q)])
+                    elif kind == 'rank': ops.append([6, reg, d2b(g[idx % len(g)])])
+                    elif kind == 'cdf': ops.append([8, reg] + [d2b(v) for v in g])
+                    elif kind == 'pmf': ops.append([9, reg] + [d2b(v) for v in g])
+                    elif kind == 'info': ops.append([5, reg])
+                    elif kind == 'dump': ops.append([11, reg])
+                    elif kind in ('ser0', 'ser1', 'ser_stream'):
+                        wb = 0 if kind == 'ser0' else 1
+                        mode = 1 if kind == 'ser_stream' else (0, 8)[idx % 2]
+                        ops.append([12, reg, other, wb if kind != 'ser_stream' else idx % 2, mode])
+                        for q in (0.0, 1.0, 0.5): ops.append([7, other, d2b(q)])
+                        ops.append([5, other]); ops.append([11, other])
+                    elif kind == 'merge_src':
+                        ops.append([1, other, (k, 10, 200)[idx % 3]])
+                        if idx % 2: ops.append([2, other, d2b(mid + 0.5), d2b(mid - 0.5)])
+                        ops.append([4, other, reg]); allo = allv + ([mid + 0.5, mid - 0.5] if idx % 2 else [])
+                        for q in (0.0, 1.0, 0.5): ops.append([7, other, d2b(q)])
+                        ops.append([5, other]); ops.append([11, other])
+                    elif kind == 'merge_dst':
+                        ops.append([1, other, (k, 10, 200)[idx % 3]])
+                        ops.append([2, other, d2b(hi + 2.0), d2b(lo - 2.0), d2b(mid)][:3 + idx % 3])
+                        if idx % 2: ops.append([10, other])
+                        ops.append([4, reg, other])
+                    # then everything else, still on the same digest
+                    for q in qs: ops.append([7, reg, d2b(q)])
+                    ops.append([5, reg]); ops.append([11, reg])
+                    for v in g: ops.append([6, reg, d2b(v)])
+                    ops.append([8, reg] + [d2b(v) for v in g]); ops.append([9, reg] + [d2b(v) for v in g])
+                    cases.append(dict(id='st%d' % idx, ops=ops, tags=['state', 'nc_%s' % nc, 'nb%d' % nb, 'first_' + kind, 'k%d' % k]))
+    return cases
+
 def gen(rng, tier):
+    return state_cases(rng) + gen_random(rng, tier)
+
+def gen_random(rng, tier):
     ncases = 70 if tier == 'quick' else 900
     cases = []
     for ci in range(ncases):
